@@ -6,6 +6,7 @@ import (
 	"fmt"
 	"io"
 	"math"
+	"math/big"
 	"math/rand"
 	"sort"
 	"strconv"
@@ -440,16 +441,71 @@ func fmtF32(x float32, style int) string {
 		return strconv.FormatFloat(float64(x), 'E', 8, 32)
 	case 3:
 		return strconv.FormatFloat(float64(x), 'g', -1, 32) // shortest
+	case 5:
+		// a long decimal a hair's breadth on x's side of the midpoint between x and one of its
+		// float32 neighbours (closer to the midpoint than float64 can tell): still nearer to x
+		// than to any other float32, so it reads as x
+		if tok, ok := nearBoundaryToken(x); ok {
+			return tok
+		}
+		return strconv.FormatFloat(float64(x), 'g', -1, 32)
 	default:
 		return strconv.FormatFloat(float64(x), 'f', -1, 32)
 	}
+}
+
+func nearBoundaryToken(x float32) (string, bool) {
+	ax := math.Abs(float64(x))
+	if !(ax >= 1e-3 && ax <= 1e6) {
+		return "", false
+	}
+	up := math.Float32bits(x)&2 == 0
+	var y float32
+	if up {
+		y = math.Nextafter32(x, float32(math.Inf(1)))
+	} else {
+		y = math.Nextafter32(x, float32(math.Inf(-1)))
+	}
+	if y == 0 || (y < 0) != (x < 0) {
+		return "", false
+	}
+	mid := (float64(x) + float64(y)) / 2 // exact: 25 significant bits
+	txt := new(big.Float).SetPrec(200).SetFloat64(math.Abs(mid)).Text('f', 80)
+	txt = strings.TrimRight(txt, "0")
+	if !strings.Contains(txt, ".") || strings.HasSuffix(txt, ".") {
+		return "", false
+	}
+	if math.Abs(float64(x)) > math.Abs(float64(y)) {
+		txt += "000000001" // slightly beyond the midpoint, towards x
+	} else {
+		// slightly short of the midpoint: lower the last digit, pad with nines
+		last := txt[len(txt)-1]
+		if last == '0' {
+			return "", false
+		}
+		txt = txt[:len(txt)-1] + string(last-1) + "999999999"
+	}
+	if x < 0 {
+		txt = "-" + txt
+	}
+	// self-check with exact arithmetic: the token is strictly on x's side of the midpoint
+	tv, _, err := big.ParseFloat(txt, 10, 400, big.ToNearestEven)
+	if err != nil {
+		return "", false
+	}
+	dx := new(big.Float).Sub(tv, new(big.Float).SetFloat64(float64(x)))
+	dy := new(big.Float).Sub(tv, new(big.Float).SetFloat64(float64(y)))
+	if dx.Abs(dx).Cmp(dy.Abs(dy)) >= 0 {
+		return "", false
+	}
+	return txt, true
 }
 
 func writeASCIISTL(rng *rand.Rand, normals [][3]float32, verts [][3][3]float32) (string, map[string]interface{}) {
 	name := []string{"", "part", "my part 7", "solid", "a_b-c.stl"}[rng.Intn(5)]
 	finalNL := rng.Intn(3) != 0
 	indentUnit := []string{"", " ", "  ", "\t", "    "}[rng.Intn(5)]
-	ffmt := rng.Intn(5)
+	ffmt := rng.Intn(6)
 	var b strings.Builder
 	nl := "\n"
 	if rng.Intn(4) == 0 {
